@@ -438,7 +438,21 @@ def probes():
     """Known findings the campaign is steered away from (beyond-buffer sizes)."""
     big = {"struct": "Statistics", "value": {"max": {"hex": "61" * 600000}, "min": {"hex": "61"}, "null_count": 0},
            "route": "build", "str_as_bytes": False, "allow_big": True}
-    return [("C10-to-bytes-overflow", big)]
+    return [("C10-to-bytes-overflow", big)] + large_kv_cases()
+
+
+def large_kv_cases():
+    """FileMetaData whose key/value metadata is large: the one place where the serialiser sizes its buffer from the value
+    (``len(str(key_value_metadata))``), so these are *valid* inputs that must round-trip (they are not a known finding)."""
+    out = []
+    schema = [{"name": {"str": "schema"}, "num_children": 1}, {"name": {"str": "a"}, "type": 1, "repetition_type": 0}]
+    for nkv, size in ((1, 600000), (3, 900000), (40, 30000)):
+        kv = [{"key": {"str": "k%d" % i}, "value": {"str": "v" * size}} for i in range(nkv)]
+        for route in ("build", "reparse"):
+            out.append(("boundary:large-key-value-metadata",
+                        {"struct": "FileMetaData", "route": route, "str_as_bytes": False, "allow_big": True,
+                         "value": {"version": 1, "schema": schema, "num_rows": 0, "row_groups": [], "key_value_metadata": kv}}))
+    return out
 
 
 def shrink_moves(case):
